@@ -14,6 +14,7 @@ From Coq Require Import ZArith List Bool.
 From Alliance Require Import Num KMap Types Monad Model Step Spec Hoare WitnessLib.
 From Alliance.Witness Require Import F_C03_valshares F_C03_negative_total.
 From Alliance.Proofs Require Import SortedInv WellKeyed ShareLedger.
+From Alliance.Proofs Require TokensNonneg ResetAtZero TotalFloor.
 Import ListNotations.
 Open Scope Z_scope.
 
@@ -46,6 +47,44 @@ Example C03_fixed_negative_staked_total :
 Proof. vm_compute. repeat split; reflexivity. Qed.
 Print Assumptions C03_fixed_negative_staked_total.
 
+(* ... and for EVERY history (not only that one): no stored asset ever has a negative staked total.  Assumed:
+   an asset put in by genesis is valid and carries a non-negative total.  The only subtractions are the take
+   rate (a truncation of a positive product) and Undelegate, which since 714c18a refuses more than the total. *)
+Theorem C03_staked_total_never_negative : forall h, Forall TokensNonneg.op_ok h ->
+  forall d a, kget (assets (run init_state h)) [d] = Some a -> 0 <= a_tokens a.
+Proof. exact TokensNonneg.staked_total_never_negative. Qed.
+Print Assumptions C03_staked_total_never_negative.
+(* one step from any state (reachable or not) whose assets are valid with non-negative totals *)
+Theorem C03_staked_total_step : forall s o, TokensNonneg.J s -> TokensNonneg.op_ok o ->
+  forall d a, kget (assets (fst (step s o))) [d] = Some a -> 0 <= a_tokens a.
+Proof. exact TokensNonneg.staked_total_step. Qed.
+Print Assumptions C03_staked_total_step.
+
+(* "When an asset's staked total returns to zero its validator-share records are reset": every reachable state,
+   every Undelegate that succeeds and leaves the staked total of its asset at zero — afterwards the asset's total
+   of validator shares is zero and no validator carries a validator-share record of that denom.  (The total
+   decreases only in Undelegate and in the take rate, and a charged total never reaches zero: C09.) *)
+Theorem C03_reset_when_total_returns_to_zero : forall h del v dn amt,
+  let s := run init_state h in
+  let r := step s (OUndelegate del v dn amt) in
+  snd r = R_OK ->
+  forall a', kget (assets (fst r)) [dn] = Some a' -> a_tokens a' = 0 ->
+    a_vshares a' = 0 /\
+    forall k vi, kget (valinfos (fst r)) k = Some vi -> Forall (fun da => fst da <> dn) (vi_vshares vi).
+Proof. exact ResetAtZero.reachable_undelegate_resets_at_zero. Qed.
+Print Assumptions C03_reset_when_total_returns_to_zero.
+
+(* ... and Undelegate is the only place where a staked total returns to zero: from every state whose assets are
+   well-keyed and valid, with totals >= 0 and the total of dn positive, every operation other than an Undelegate
+   of dn (or the creation of the asset dn, where the total STARTS at zero) leaves the total of dn positive. *)
+Theorem C03_total_returns_to_zero_only_in_undelegate : forall dn s o,
+  TotalFloor.Positive dn s -> ~ TotalFloor.touches_floor dn o ->
+  (match o with EGenesisAsset a => TotalFloor.AV (TotalFloor.lo1 dn) a | _ => True end) ->
+  TotalFloor.Positive dn (fst (step s o)) /\
+  forall a, kget (assets (fst (step s o))) [dn] = Some a -> 0 < a_tokens a.
+Proof. exact TotalFloor.total_stays_positive. Qed.
+Print Assumptions C03_total_returns_to_zero_only_in_undelegate.
+
 (* structural invariants of every reachable state: every map is strictly sorted by key — no
    delegation / validator / asset record exists twice — and every asset sits under its denom *)
 Theorem C03_records_unique : forall h, let s := run init_state h in
@@ -68,4 +107,25 @@ Example C03_nonvacuous : adm_sl_run 10 1 init_state C03_example /\ adm_sl_run 11
 Proof.
   split; [|split; [|vm_compute; reflexivity]];
     (unfold C03_example; cbn [adm_sl_run]; repeat split; cbv [adm_sl]; try exact I; try (vm_compute; discriminate); try (vm_compute; intro; discriminate)).
+Qed.
+(* non-vacuity of the reset theorem: both holders exit; the last exit leaves total 0, and the premises hold *)
+Definition C03_drain : list Op :=
+  [EStaking [(10, mkSVal 3 1000000 (1000000 * ONE))] []; EUnbondingTime 100; EParams 0 1000 ZERO_TIME;
+   EGenesisAsset (mkAsset 1 ONE 0 (5 * ONE) 0 0 0 0 ONE 0 0 true); EBank [(100, 1, 1000); (101, 1, 1000)] [];
+   OBeginBlock 10 1; ODelegate 100 10 1 500; ODelegate 101 10 1 333; OUndelegate 101 10 1 333].
+Example C03_reset_nonvacuous :
+  let r := step (run init_state C03_drain) (OUndelegate 100 10 1 500) in
+  snd r = R_OK /\ option_map a_tokens (kget (assets (fst r)) [1]) = Some 0 /\
+  option_map a_vshares (kget (assets (fst r)) [1]) = Some 0.
+Proof. vm_compute. repeat split; reflexivity. Qed.
+Example C03_positive_nonvacuous : TotalFloor.Positive 1 (run init_state C03_drain).
+Proof.
+  unfold TotalFloor.Positive, TotalFloor.J. set (m := assets _). vm_compute in m. subst m.
+  repeat constructor; vm_compute; congruence.
+Qed.
+Example C03_nonvacuous_total : Forall TokensNonneg.op_ok C03_example /\
+  map (fun s => staked_total s 1) (map snd (skipn 6 (run_trace init_state C03_example))) = [500; 833; 833; 833; 733; 683].
+Proof.
+  split; [|vm_compute; reflexivity].
+  unfold C03_example. repeat constructor; vm_compute; congruence.
 Qed.
